@@ -2,11 +2,16 @@
 //! composition), C08 (unsafe-VRP filter).
 mod abs;
 mod c20;
+mod fixture;
 mod httpc;
+mod keys;
+mod snap;
 
 fn run(name: &str, ctx: &mut rvcore::Ctx) -> bool {
     match name {
         "c20" => c20::run_c20(ctx),
+        "c09" => snap::run_c09(ctx),
+        "c08" => snap::run_c08(ctx),
         _ => return false
     }
     true
